@@ -331,3 +331,98 @@ PROPS["C03"] = dict(
                           what="json.NewEncoder(w, opts).Step vs JsonEnc model bytes; output re-read by the real decoder and by encoding/json; all single bytes and 2-byte sequences (stride in quick) as string content, code point classes, int/uint boundaries, float switch points and powers of ten +-1ulp, nesting shapes x 9 whitespace options, random trees")),
     ],
 )
+
+
+# ---------------------------------------------------------------------------
+# C15: reader  impl = "<outs> @n"   model = "<outs> @n | abs: <outs> @n"
+#      sched-dec impl = model = "ok @c toks" | "err class n"
+# ---------------------------------------------------------------------------
+
+def cmp_c15_reader(payload, impl, model):
+    m, _, a = model.partition(" | abs: ")
+    sched = payload.split("|")[1].split()
+    faults = "F" in sched
+    if not faults:
+        if impl != a:
+            return viol("reading through this schedule differs from reading the bytes from memory: got %s, expected %s" % (impl[:120], a[:120]))
+        if m != a:
+            return mism("reader model differs from the abstract stream (refinement theorem should exclude this): %s vs %s" % (m[:80], a[:80]))
+    elif impl != m:
+        return mism("reader model and implementation differ under a faulty schedule: %s vs %s" % (impl[:100], m[:100]))
+    return None
+
+
+def cmp_c15_dec(payload, impl, model):
+    sched, _, mem = impl.partition(" | mem: ")
+    if sched != mem:
+        return viol("decoding through this read schedule gives %s; decoding the same bytes from memory gives %s" % (sched[:120], mem[:120]))
+    if sched != model:
+        return mism("decoder model gives %s, implementation (under every schedule) gives %s" % (model[:100], sched[:100]))
+    return None
+
+
+PROPS["C15"] = dict(
+    coq="Properties_C15",
+    level_text="Proved in Coq: for every data, every fault-free read schedule (arbitrary chunk sizes, EOF reported with or after the last data, runs of fewer than 100 zero-length reads anywhere) and every sequence of reader operations, the model of readerToScanner + SlickReaderStream returns exactly what the abstract in-memory byte stream returns (bytes, errors incl. EOF vs ErrUnexpectedEOF, consumed count, tracked bytes). The decoder models are written against that abstract stream, so their results do not depend on the schedule. Tied to shared/reader.go by op-sequence correspondence (exhaustive splits of short data) and to both decoders by decoding documents under every split of short documents.",
+    level_note="Trusted: Coq kernel, extraction, driver, harness; hand-written model of shared/reader.go tied to the code by differential testing. io.ReadAtLeast is transcribed from its source. No axioms.",
+    rule="reader: data x schedule x op script; sched-dec: document x schedule; non-trivial = schedule with at least 2 entries; distinct by payload",
+    trusted_base=TB_COMMON,
+    assumptions=["a reader may return (0, nil) at most 99 times in a row (after that ReadByte reports io.ErrNoProgress, as bufio does)"],
+    suites=[
+        ("reader", dict(cmp=cmp_c15_reader, nontrivial=lambda p, i, m: len(p.split("|")[1].split()) >= 2, shrink=False,
+                        what="shared.NewReader(schedulingReader): Readn1/Readb/Readn/Readnzc/Unreadn1/Track/StopTrack scripts vs Reader.run_ops and vs the abstract stream; every composition of data up to 6 (quick) / 10 bytes x EOF style x zero-read insertion, plus random")),
+        ("sched-dec", dict(cmp=cmp_c15_dec, nontrivial=lambda p, i, m: len(p.split("|")[1].split()) >= 2, shrink=False,
+                           what="cbor.NewDecoder / json.NewDecoder over a scheduling reader vs the decoder models on the whole input: every split of short valid and invalid documents (<= 10 quick / 14 thorough bytes) x EOF-with-data x zero reads at every position; random schedules on long documents")),
+    ],
+)
+
+
+# ---------------------------------------------------------------------------
+# C16: wfault  impl/model = "err <step>" | "fin <n>" | "starved" | "panic"
+#      rfault  impl = "ok @c toks" | "err <class> <n>" ; model = "<prefix-run mapped> | whole: <result on the whole input>"
+# ---------------------------------------------------------------------------
+
+def cmp_c16_w(payload, impl, model):
+    if model.startswith("err"):
+        if not impl.startswith("err"):
+            return viol("a Write fault inside the document (model: reported at step %s) was not reported: encoder returned %s" % (model[4:], impl))
+        if impl != model:
+            return mism("write fault reported at step %s, model says step %s" % (impl[4:], model[4:]))
+        return None
+    if impl != model:
+        return mism("no effective write fault: model %s, impl %s" % (model, impl))
+    return None
+
+
+def cmp_c16_r(payload, impl, model):
+    pre, _, whole = model.partition(" | whole: ")
+    k = int(payload.split("|")[1].split()[0])
+    fmtc = payload.split()[0]
+    if whole.startswith("ok @"):
+        span = int(whole.split()[1][1:])
+        if 0 < k < span:
+            if not impl.startswith("err fault"):
+                return viol("reader failed at offset %d, strictly inside the %d-byte item, but the decoder returned %s" % (k, span, impl[:100]))
+            return None
+    if impl == pre:
+        return None
+    doclen = len(payload.split()[1]) // 2
+    if fmtc == "j" and impl.startswith("err fault") and (pre.startswith("ok") or k == doclen):
+        return None   # a bare top-level number has no terminator: the fault is met while looking for one
+    return mism("outside the item: model %s impl %s" % (pre[:80], impl[:80]))
+
+
+PROPS["C16"] = dict(
+    coq="Properties_C16",
+    level_text="Proved in Coq on the encoder models with a sticky-error writer: for every token sequence and every fault plan (which Write call, kind error/short/both, fail-stop or fail-once) whose faulty call lies within the writes the document needs, the run returns an error at the step that performed the faulty write (never a silent success). Reader side: truncation theorem on the decoder models (every proper prefix of a well-formed item ends in an end-of-input error), which together with the reader model's error propagation gives: a reader fault strictly inside an item surfaces as that error. Tied to the code by exhaustive fault enumeration per document: every Write index x 3 kinds x 2 modes; every byte offset x 2 modes.",
+    level_note="Trusted: Coq kernel, extraction, driver, harness; the sticky-writer behaviour (every writing Step returns the recorded error) is part of the hand-written encoder models and pinned by the enumeration. Reader faults are modelled as end-of-stream with a distinguished error. No axioms.",
+    rule="wfault: document x write index x kind x mode; rfault: document x byte offset x mode; non-trivial = the fault position lies inside the document; distinct by payload",
+    trusted_base=TB_COMMON,
+    assumptions=["a faulty Write returns (len, err), (len-1, nil) or (0, err); a faulty Read returns (0, err)"],
+    suites=[
+        ("wfault", dict(cmp=cmp_c16_w, nontrivial=lambda p, i, m: m.startswith("err"), shrink=False,
+                        what="cbor.NewEncoder / json.NewEncoder over a fault-injecting io.Writer: for each document every Write index 1..n+1, kinds err/short/both, fail-stop and fail-once")),
+        ("rfault", dict(cmp=cmp_c16_r, nontrivial=lambda p, i, m: "ok @" in m, shrink=False,
+                        what="cbor.NewDecoder / json.NewDecoder over a reader failing with a distinguished error at every byte offset, fail-stop and fail-once")),
+    ],
+)
